@@ -27,7 +27,9 @@ pub struct GlideProcessor {
 impl GlideProcessor {
     /// `GlideProcessor::new(sr)` is a new glide processor with sample rate `sr`
     pub fn new(sample_rate_hz: f32) -> Self {
-        let max_fc = sample_rate_hz / 2.0_f32;
+        // above sample_rate/4 the pole of the single pole lowpass goes negative and the output rings, at
+        // sample_rate/2 it sits on the unit circle and the output oscillates forever
+        let max_fc = sample_rate_hz / 4.0_f32;
 
         let coeffs = coeffs(sample_rate_hz.hz(), max_fc.hz());
 
@@ -46,7 +48,7 @@ impl GlideProcessor {
     ///
     /// * `t` - the new value for the glide control time, in `[0.0, 10.0]`
     ///
-    /// Times that would be faster than sample_rate/2 are clamped.
+    /// Times that would be faster than sample_rate/4 are clamped.
     ///
     /// This function can be somewhat costly, so don't call it more than necessary
     pub fn set_time(&mut self, t: f32) {
